@@ -490,7 +490,7 @@ class Sym:
             if k in ("BinaryOperator", "CompoundAssignOperator") and m.get("opcode", "").endswith("=") and \
                     m.get("opcode") not in ("==", "!=", "<=", ">="):
                 l = cx(kids(m)[0])
-                if l in self.tracked or l in self.results or l in self.variables:
+                if l in self.tracked or l in self.results or l in self.variables or l in getattr(self, "flags", ()):
                     return True
         return False
 
@@ -511,7 +511,27 @@ class Sym:
             ", ".join("(%s, %s)" % (lean_str(a), lean_str(b)) for a, b in state["writes"]),
             lean_str(state["res"]), lean_list(state["asked"]), lean_str(how))
 
+    def intval(self, n, state):
+        """value of an expression that is an integer literal or a local flag whose value is known on this path"""
+        n = strip(n)
+        if n.get("kind") == "IntegerLiteral":
+            return int(n["value"])
+        if n.get("kind") == "DeclRefExpr":
+            v = state["ints"].get(n["referencedDecl"]["name"])
+            return v
+        if n.get("kind") == "UnaryOperator" and n.get("opcode") == "!" :
+            v = self.intval(kids(n)[0], state)
+            return None if v is None else int(not v)
+        return None
+
     def rhs(self, n, state):
+        m = strip(n)
+        # `flag ? a : b` with a flag whose value is known on this path (single-exit style)
+        if m.get("kind") == "ConditionalOperator":
+            c, a, b = kids(m)
+            v = self.intval(c, state)
+            if v is not None:
+                return self.rhs(a if v else b, state)
         t = cx(n)
         for var, val in state["vars"].items():
             if val is not None:
@@ -537,6 +557,17 @@ class Sym:
                 l = cx(kids(m)[0])
                 if l in self.tracked or l in self.results or l in self.variables:
                     evs.append((off(m) + 10 ** 8, "assign", m))        # after the calls inside its right-hand side
+        for m, path in walk(n):
+            if m.get("kind") in ("BinaryOperator", "CompoundAssignOperator") and m.get("opcode", "").endswith("=") and \
+                    m.get("opcode") not in ("==", "!=", "<=", ">="):
+                lhs = strip(kids(m)[0])
+                if lhs.get("kind") == "DeclRefExpr" and lhs["referencedDecl"]["name"] in state["ints"]:
+                    v = self.intval(kids(m)[1], state) if m.get("kind") == "BinaryOperator" else None
+                    state["ints"][lhs["referencedDecl"]["name"]] = v
+            if m.get("kind") == "UnaryOperator" and m.get("opcode") in ("++", "--") and kids(m):
+                u = strip(kids(m)[0])
+                if u.get("kind") == "DeclRefExpr" and u["referencedDecl"]["name"] in state["ints"]:
+                    state["ints"][u["referencedDecl"]["name"]] = None
         evs.sort(key=lambda e: e[0])
         for _, kind, x in evs:
             if kind == "ask":
@@ -573,6 +604,10 @@ class Sym:
                 continue
             if k == "DeclStmt":
                 for d in kids(s):
+                    if d.get("kind") == "VarDecl" and d.get("type", {}).get("qualType") in ("int", "char", "short", "long", "_Bool") \
+                            and kids(d) and strip(kids(d)[-1]).get("kind") == "IntegerLiteral" and d.get("name") not in self.variables:
+                        state["ints"][d["name"]] = int(strip(kids(d)[-1])["value"])     # a local flag
+                        continue
                     if d.get("kind") == "VarDecl" and d.get("name") in self.variables and kids(d):
                         init = kids(d)[-1]
                         state["vars"][d["name"]] = self.variables[d["name"]](strip(init), cx(init))
@@ -596,6 +631,10 @@ class Sym:
                 if any(x in ct for x in NOISE) or not (self.has_effect(th) or (el is not None and self.has_effect(el)) or self.has_effect(c)):
                     continue                                        # logging, assertions, reference counting
                 st = self.static(ct, state)
+                if st is None:
+                    iv = self.intval(c, state)
+                    if iv is not None:
+                        st = bool(iv)
                 if st is True:
                     stmts = [th] + stmts
                     continue
@@ -622,7 +661,10 @@ class Sym:
     def lean(self, fn, doc):
         body = [c for c in kids(fn) if c.get("kind") == "CompoundStmt"][0]
         self.seen = set()
-        t = self.run([body], {"writes": [], "res": "", "asked": [], "vars": {}})
+        self.flags = set(d.get("name") for d, _ in walk(fn) if d.get("kind") == "VarDecl" and
+                         d.get("type", {}).get("qualType") in ("int", "char", "short", "long", "_Bool") and kids(d) and
+                         strip(kids(d)[-1]).get("kind") == "IntegerLiteral") - set(self.variables)
+        t = self.run([body], {"writes": [], "res": "", "asked": [], "vars": {}, "ints": {}})
         # every write to a tracked lvalue must lie on a path of the tree (none hidden in a loop, a switch, a condition)
         for m, _ in walk(fn):
             if m.get("kind") in ("BinaryOperator", "CompoundAssignOperator") and m.get("opcode", "").endswith("=") and \
